@@ -1013,6 +1013,7 @@ impl<'de> serde::de::Visitor<'de> for DataVisitor<'_> {
         A: serde::de::SeqAccess<'de>,
     {
         let pre_length = self.dataset.data_len();
+        let mut gaps: usize = 0; //total number of empty slots created on behalf of temporary ids
         loop {
             let databuilder: Option<AnnotationDataBuilder> = seq.next_element()?;
             if let Some(mut databuilder) = databuilder {
@@ -1031,13 +1032,20 @@ impl<'de> serde::de::Visitor<'de> for DataVisitor<'_> {
                     // temporary public IDs are deserialized exactly
                     // as they were serialized. So if there were any gaps,
                     // we need to deserialize these too:
-                    if self.dataset.data_len() > handle + pre_length {
+                    if self.dataset.data_len() > handle.saturating_add(pre_length) {
                         return Err(serde::de::Error::custom(
                             "unable to resolve temporary public identifiers for annotation data",
                         ));
                     } else if handle > self.dataset.data_len() {
                         // expand the gaps, though this wastes memory if ensures that all references
                         // are valid without explicitly storing public identifiers.
+                        gaps = gaps.saturating_add(handle - self.dataset.data_len());
+                        if gaps > MAX_TEMP_ID_GAP {
+                            return Err(serde::de::Error::custom(format!(
+                                "temporary public identifier !D{} for annotation data implies more than {} unused handles, refusing to allocate them",
+                                handle, MAX_TEMP_ID_GAP
+                            )));
+                        }
                         self.dataset.data.resize_with(handle, Default::default);
                     }
                 }
